@@ -347,6 +347,15 @@ ListOrderRelations ==
                     other == ExpectedScsFor(l2)
                 IN  other = Transposed(shp, base, tau)
 
+(* Refinement: forgetting the spectrum (keeping only how many records were applied) turns this  *)
+(* machine into the counter machine of CreateCounters.tla, whose invariants are proved for      *)
+(* streams of any length and against which traces of the real create loop are validated.        *)
+AbsPhase == IF phase \in {"build", "read", "apply"} THEN "read" ELSE phase
+AppliedCount == Cardinality({j \in 1..Len(h) : h[j].kind \in {"standard", "projected"}})
+Abs == INSTANCE CreateCounters WITH phase <- AbsPhase, sites <- sites, skipped <- skipped,
+                                    applied <- AppliedCount, out <- out, strict <- strict
+RefinesCounters == Abs!CSpec
+
 (****************************** JSON boundary ******************************)
 GtJson(row) == [s \in DOMAIN row.gt |-> Render(row.gt[s])]
 Terminal == phase \in {"done", "failed"}
